@@ -384,6 +384,9 @@ func depth2(thorough bool) []group {
 		pSeq(fList, -1, false, pOr(l1(), l2()), pBind()), pAs(pOr(l1(), l2())), pOr(pAnd(pType("::Std::Int"), sv()), l1()),
 		pOr(l1(), pOr(pBind(), sv())), pOr(pSeq(fList, -1, false, sv(), pBind()), pSeq(fTuple, -1, false, pBind(), sv(), pWild())),
 		pObj("Foo", "b", pOr(l1(), l2())), pNilable(pOr(l1(), l2())),
+		// bound by an earlier part of the pattern, named again inside an alternative
+		pSeq(fList, -1, false, sv(), pOr(pLit(vi(1)), sv())), pSeq(fList, -1, false, sv(), pOr(pLit(vi(2)), pLit(vi(1)))),
+		pSeq(fTuple, -1, false, sv(), pOr(pSeq(fList, -1, false, sv()), pLit(vi(2)))), pSeq(fList, -1, false, sv(), pNilable(pSeq(fList, -1, false, sv()))),
 	}
 	gs = append(gs, group{"same-variable-alternatives", same})
 	return gs
